@@ -32,7 +32,11 @@ MODEL = "model_of"
 RULE = ("four families. format: EVERY single-field class over repr in {True, False, leaf callable, "
         "re-entrant callable} x {init set, init unset, init=False unset, init=False set} x 7 class "
         "namings (top-level, nested, function-local, nested-in-local, local-in-nested-local, undecorated "
-        "subclass of a local class: local / top-level) x slots/dict x attr.s/define, plus seeded random "
+        "subclass of a local class: local / top-level) x slots/dict x attr.s/define; then, on 3 namings, "
+        "{init=False unset, init=False set, init set} x default kind of the init=False fields {none, "
+        "default=value, factory} x how an unset attribute came to be unset {constructed then deleted, "
+        "instance from cls.__new__(cls), class-level init=False with a hand-written __init__ that sets "
+        "nothing} x repr kind x slots/dict x attr.s/define; plus seeded random "
         "classes with 0-4 own fields, an attrs base class with 1-2 fields, str=True/False with and "
         "without an inherited __str__, frozen; repr() and str() compared as full strings. graph: seeded "
         "random heaps of 1-6 attrs instances/lists/dicts (plus scalars incl. NOTHING) with arbitrary "
@@ -105,8 +109,21 @@ def all_fields(cs):
     return list(cs.get("base") or []) + list(cs["fields"])
 
 
-def _field_src(deco, cidx, name, rm, init):
-    args = ["default=None" if init else "init=False"]
+def _dflt(f):
+    """default kind of a field spec [name, rmode, init, dflt?]: None | "value" | "factory"."""
+    return f[3] if len(f) > 3 else None
+
+
+def _field_src(deco, cidx, f):
+    name, rm, init = f[0], f[1], f[2]
+    d = _dflt(f)
+    args = [] if init else ["init=False"]
+    if d == "value":
+        args.append("default=7")
+    elif d == "factory":
+        args.append("factory=list")
+    elif init:
+        args.append("default=None")
     if rm is not True:
         args.append("repr=False" if rm is False else "repr=CALLS[%r]" % ("%d.%s" % (cidx, name)))
     if deco == "define":
@@ -118,6 +135,8 @@ def _deco_src(cs, is_base=False):
     kw = ["slots=%r" % bool(cs["slots"]), "eq=False", "frozen=%r" % bool(cs.get("frozen", False))]
     if cs.get("str") and not is_base:
         kw.append("str=True")
+    if cs.get("own_init") and not is_base:
+        kw.append("init=False")     # class-level init=False: the hand-written __init__ sets nothing
     return "@%s(%s)" % ("attrs.define" if cs["deco"] == "define" else "attr.s", ", ".join(kw))
 
 
@@ -141,10 +160,12 @@ def class_source(cs, cidx):
         src += ["class StrBase%d:" % cidx, "    def __str__(self):", "        return 'bstr'"]
         bases = ["StrBase%d" % cidx]
     if cs.get("base"):
-        body = [_field_src(cs["deco"], cidx, f[0], f[1], f[2]) for f in cs["base"]]
+        body = [_field_src(cs["deco"], cidx, f) for f in cs["base"]]
         src += _class_lines(0, _deco_src(cs, True), "B" + n, bases, body)
         bases = ["B" + n]
-    body = [_field_src(cs["deco"], cidx, f[0], f[1], f[2]) for f in cs["fields"]]
+    body = [_field_src(cs["deco"], cidx, f) for f in cs["fields"]]
+    if cs.get("own_init"):
+        body += ["def __init__(self):", "    pass"]
     deco = _deco_src(cs)
     nm = cs["naming"]
     if nm == "top":
@@ -246,7 +267,9 @@ def build_heap(inp, classes):
     for nd in nodes:
         k = nd["k"]
         if k == "i":
-            objs.append(classes[nd["c"]]())
+            cls = classes[nd["c"]]
+            # how the instance comes to exist: the generated/own __init__, or bare __new__
+            objs.append(cls.__new__(cls) if nd.get("mk") == "new" else cls())
         elif k == "l":
             objs.append([])
         elif k == "d":
@@ -259,8 +282,12 @@ def build_heap(inp, classes):
             for f in all_fields(inp["classes"][nd["c"]]):
                 if f[0] in nd["a"]:
                     object.__setattr__(ob, f[0], objs[nd["a"][f[0]]])
-                elif f[2]:
-                    object.__delattr__(ob, f[0])
+                else:
+                    # unset: deleted after construction (or never set: __new__ / own __init__)
+                    try:
+                        object.__delattr__(ob, f[0])
+                    except AttributeError:
+                        pass
         elif k == "l":
             ob.extend(objs[i] for i in nd["e"])
         elif k == "d":
@@ -522,7 +549,13 @@ def mk_case(inp, family=None):
     sig = {"family": family, "threaded": threaded, "marker": marker,
            "namings": sorted({cs["naming"] for cs in inp["classes"]}),
            "decos": sorted({cs["deco"] for cs in inp["classes"]}),
-           "fault": any(any(fl) for fl in (inp.get("faults") or []))}
+           "fault": any(any(fl) for fl in (inp.get("faults") or [])),
+           "noinit_default_unset": any(
+               nd["k"] == "i" and any((not f[2]) and _dflt(f) and f[0] not in nd["a"]
+                                      for f in all_fields(inp["classes"][nd["c"]]))
+               for nd in inp["nodes"]),
+           "made_by_new": any(nd.get("mk") == "new" for nd in inp["nodes"]),
+           "own_init": any(cs.get("own_init") for cs in inp["classes"])}
     return Case(term, inp, seen_json, sig=sig, nontrivial=nontrivial,
                 key=json.dumps(inp, sort_keys=True))
 
@@ -537,30 +570,45 @@ RMODES = [True, False, LEAF, WRAP]
 
 def _cls(name, fields, **kw):
     d = {"name": name, "deco": "attr.s", "slots": False, "frozen": False, "naming": "top", "str": False,
-         "base_str": False, "base": None, "fields": fields}
+         "base_str": False, "base": None, "fields": fields, "own_init": False}
     d.update(kw)
     return d
+
+
+def _format_case(deco, slots, naming, rm, fstate, dflt, how):
+    """One single-field configuration.  dflt: default kind of the init=False fields (None | "value" |
+    "factory"); how: how an unset attribute came to be unset - "ctor" (constructed, then deleted),
+    "new" (cls.__new__(cls): never set), "own_init" (class-level init=False, own __init__ sets nothing)."""
+    init = fstate.startswith("init")
+    rmj = rm if isinstance(rm, bool) else [rm[0], "L" if rm[0] == "leaf" else "W"]
+    cs = _cls("C", [["p", True, True], ["x", rmj, init, dflt], ["z", True, False, dflt]], deco=deco,
+              slots=slots, naming=naming, str=True, base_str=(init != slots), own_init=(how == "own_init"))
+    a = {"p": 1}
+    if fstate.endswith("_set"):
+        a["x"] = 2
+    if slots and dflt is None:
+        a["z"] = 3
+    nodes = [{"k": "i", "c": 0, "a": a, "mk": "new" if how == "new" else "ctor"},
+             {"k": "s", "v": ["i", 1]}, {"k": "s", "v": ["s", "it's"]}, {"k": "s", "v": ["N"]}]
+    return {"family": "format", "classes": [cs], "nodes": nodes, "calls": [["repr", 0], ["str", 0]],
+            "faults": [], "warm": False}
+
+
+FSTATES = ["init_set", "init_unset", "noinit_unset", "noinit_set"]
 
 
 def gen_format_exhaustive():
     out = []
     for deco, slots, naming, rm, fstate in itertools.product(
-            ["attr.s", "define"], [False, True], NAMINGS, RMODES,
-            ["init_set", "init_unset", "noinit_unset", "noinit_set"]):
-        init = fstate.startswith("init")
-        tok = "L" if rm is LEAF else "W"
-        rmj = rm if isinstance(rm, bool) else [rm[0], tok]
-        cs = _cls("C", [["p", True, True], ["x", rmj, init], ["z", True, False]], deco=deco, slots=slots,
-                  naming=naming, str=True, base_str=(init != slots))
-        a = {"p": 1}
-        if fstate.endswith("_set"):
-            a["x"] = 2
-        if slots:
-            a["z"] = 3
-        nodes = [{"k": "i", "c": 0, "a": a}, {"k": "s", "v": ["i", 1]}, {"k": "s", "v": ["s", "it's"]},
-                 {"k": "s", "v": ["N"]}]
-        out.append({"family": "format", "classes": [cs], "nodes": nodes, "calls": [["repr", 0], ["str", 0]],
-                    "faults": [], "warm": False})
+            ["attr.s", "define"], [False, True], NAMINGS, RMODES, FSTATES):
+        out.append(_format_case(deco, slots, naming, rm, fstate, None, "ctor"))
+    # init=False field x {no default, default value, factory} x how it came to be unset x set/unset
+    for deco, slots, naming, rm, fstate, dflt, how in itertools.product(
+            ["attr.s", "define"], [False, True], ["top", "local_in_nested_local", "sub_of_local"], RMODES,
+            ["noinit_unset", "noinit_set", "init_set"], [None, "value", "factory"], ["ctor", "new", "own_init"]):
+        if dflt is None and how == "ctor":
+            continue    # already in the first block
+        out.append(_format_case(deco, slots, naming, rm, fstate, dflt, how))
     return out
 
 
@@ -575,24 +623,34 @@ def rand_rmode(rng, tag):
     return ["wrap", "W" + tag]
 
 
+def rand_dflt(rng):
+    return rng.choice([None, None, "value", "factory"])
+
+
+def rand_mk(rng):
+    return "new" if rng.random() < 0.25 else "ctor"
+
+
 def rand_class(rng, idx, maxf=4, simple_names=False):
     nf = rng.randint(0, maxf)
     names = ["a", "b", "c", "d", "e", "f", "g"]
     rng.shuffle(names)
     base = None
     if rng.random() < 0.35:
-        base = [[names.pop(), rand_rmode(rng, "b%d%d" % (idx, j)), rng.random() < 0.75]
+        base = [[names.pop(), rand_rmode(rng, "b%d%d" % (idx, j)), rng.random() < 0.75, rand_dflt(rng)]
                 for j in range(rng.randint(1, 2))]
-    fields = [[names.pop(), rand_rmode(rng, "%d%d" % (idx, j)), rng.random() < 0.7] for j in range(nf)]
+    fields = [[names.pop(), rand_rmode(rng, "%d%d" % (idx, j)), rng.random() < 0.7, rand_dflt(rng)]
+              for j in range(nf)]
     return _cls("K%d" % idx, fields, deco=rng.choice(["attr.s", "define"]), slots=rng.random() < 0.5,
                 frozen=rng.random() < 0.2, naming="top" if simple_names and rng.random() < 0.5 else rng.choice(NAMINGS),
-                str=rng.random() < 0.4, base_str=rng.random() < 0.3, base=base)
+                str=rng.random() < 0.4, base_str=rng.random() < 0.3, base=base,
+                own_init=rng.random() < 0.2)
 
 
 def gen_format_random(rng):
     cs = rand_class(rng, 0)
     pool = rng.sample(SCALARS, 4)
-    nodes = [{"k": "i", "c": 0, "a": {}}] + [{"k": "s", "v": s} for s in pool]
+    nodes = [{"k": "i", "c": 0, "a": {}, "mk": rand_mk(rng)}] + [{"k": "s", "v": s} for s in pool]
     for f in all_fields(cs):
         p = 0.93 if f[2] else 0.5
         if rng.random() < p:
@@ -634,7 +692,7 @@ def gen_graph(rng, max_nodes=6, max_items=3, p_unset=0.04):
                         a[f[0]] = ref()
                 elif rng.random() < 0.6:
                     a[f[0]] = ref()
-            nodes[i] = {"k": "i", "c": c, "a": a}
+            nodes[i] = {"k": "i", "c": c, "a": a, "mk": rand_mk(rng)}
         elif kd == "l":
             nodes[i] = {"k": "l", "e": [ref() for _ in range(rng.randint(0, max_items))]}
         else:
@@ -821,6 +879,9 @@ def distribution(cases):
     return {"families": dict(fam), "namings": dict(nam),
             "with_cycle_marker": sum(1 for c in cases if c.sig["marker"]),
             "with_fault": sum(1 for c in cases if c.sig["fault"]),
+            "unset_init_false_field_with_default": sum(1 for c in cases if c.sig["noinit_default_unset"]),
+            "instance_made_by___new__": sum(1 for c in cases if c.sig["made_by_new"]),
+            "class_level_init_false_own_init": sum(1 for c in cases if c.sig["own_init"]),
             "threads_2": sum(1 for c in cases if c.sig["threaded"] and len(c.inp["calls"]) == 2),
             "threads_3": sum(1 for c in cases if c.sig["threaded"] and len(c.inp["calls"]) == 3),
             "raised": sum(1 for c in cases for e in c.seen if isinstance(e, dict) and "result" in e
